@@ -17,7 +17,8 @@
      forest (hypothesis `HashBytesOK` only; no collision-freeness).
   3. CLOSURES: `ReachSer` / `ReachFullSer` = `ReachU` / `ReachFullU` of `Props/C09b|c.lean` plus the
      step "serialise, restore into a fresh receiver"; `C09_reach_ser`, `C09_reach_full_ser`,
-     `lookups_reach_ser`, `lookups_reach_full_ser` (hypothesis `CR` only).
+     `lookups_reach_ser`, `lookups_reach_full_ser` (hypothesis `NZ` only: parent hashes are never
+     the zero hash; no injectivity of `ph`).
   4. BEHAVIOUR UNDER HONEST CALLS (from the invariants): `Twin m m' F` (both track `F`, same cache);
      `twin_restore`, `twin_step`, `twin_queries`, `lockstep` (every honest run succeeds on both, step
      by step, and ends in twins), `map_restored_behaves_identically`; the same for full forests (`TwinF`).
@@ -31,8 +32,10 @@
      after every call of every sequence of calls with any arguments), `map_restored_bisim_bytes32`
      (Go's `[32]byte`, any parent hash), `read_ok_sane`.
 
-  WHY BYTES AND CLOSURES ARE KEPT APART.  `CR H` (the parent hash is injective — the hypothesis of
-  every C09 preservation theorem) and `HashBytesOK H` (a hash IS 32 bytes on the wire — the
+  WHY BYTES AND CLOSURES ARE KEPT APART (historical; the closures now assume `NZ H` only, which IS
+  compatible with `HashBytesOK H`, see `Props/NZ.lean` for a finite `NZ` hash).  `CR H` (the parent
+  hash is injective — formerly the hypothesis of every C09 preservation theorem, still that of the
+  soundness theorems C03) and `HashBytesOK H` (a hash IS 32 bytes on the wire — the
   hypothesis of every C13 byte theorem) cannot both hold of one type: an injective `H × H → H` does
   not exist on a finite type with two elements (`Props/C13MapNote.lean`, `cr_hashBytesOK_incompatible`).
   A theorem assuming both would be vacuous.  The two
@@ -190,7 +193,7 @@ theorem ReachSer.of_reachU {nonZero : H} {m : MapPollard H} {F : Forest H} {st :
 
 /-- `Modify` on a partial forest with the targets in any order (`C09b.inv_modify` +
 `C09b.modify_encoding_independent`) -/
-theorem inv_modify_any_order (cr : CR H) {m : MapPollard H} {F : Forest H} (s : SInv m F) (adds : List (Leaf H))
+theorem inv_modify_any_order (nz : NZ H) {m : MapPollard H} {F : Forest H} (s : SInv m F) (adds : List (Leaf H))
     (dels : List H) (ts : List Pos) (ps : List H) {tgts : List U64}
     (hcached : ∀ x ∈ dels, m.hasCached x = true) (hnd : dels.Nodup) (hc : F.canon dels = some (ts, ps))
     (hp : (ts.map (encP F.rows)).Perm tgts)
@@ -202,38 +205,38 @@ theorem inv_modify_any_order (cr : CR H) {m : MapPollard H} {F : Forest H} (s : 
       (∀ y, m'.hasCached y = true ↔
         ((m.hasCached y = true ∧ y ∉ dels) ∨ ∃ a ∈ adds, a.remember = true ∧ a.hash = y)) := by
   rw [C09b.modify_encoding_independent m adds dels hp (C09c.canon_enc_nodup s.n_lt hnd hc)]
-  exact C09b.inv_modify cr s adds dels ts ps hcached hnd hc hfr hndA hn
+  exact C09b.inv_modify nz s adds dels ts ps hcached hnd hc hfr hndA hn
 
 /-- the induction: every `ReachSer` state satisfies the strong invariant and its undo stack fits -/
-theorem ReachSer.stack (cr : CR H) {nonZero : H} (hnz : nonZero ≠ (zero : H)) :
+theorem ReachSer.stack (nz : NZ H) {nonZero : H} (hnz : nonZero ≠ (zero : H)) :
     ∀ {m : MapPollard H} {F : Forest H} {st : List (BD H)}, ReachSer nonZero m F st →
       SInv m F ∧ C09b.StackOK F st := by
   intro m F st hr
   induction hr with
-  | new => exact C09b.ReachU.stack cr hnz .new
-  | fromRoots F m hn hy hm => exact C09b.ReachU.stack cr hnz (.fromRoots F m hn hy hm)
+  | new => exact C09b.ReachU.stack nz hnz .new
+  | fromRoots F m hn hy hm => exact C09b.ReachU.stack nz hnz (.fromRoots F m hn hy hm)
   | modify adds dels ts ps tgts _ hca hnd hc hp hfr hndA hn he ih =>
-    obtain ⟨m2, h2, s2, _⟩ := inv_modify_any_order cr ih.1 adds dels ts ps hca hnd hc hp
+    obtain ⟨m2, h2, s2, _⟩ := inv_modify_any_order nz ih.1 adds dels ts ps hca hnd hc hp
       (fun a ha => ⟨(hfr a ha).2.1, (hfr a ha).1, (hfr a ha).2.2⟩) hndA hn
     rw [he] at h2
     rw [(Prod.mk.inj h2).1]
     exact ⟨s2, ⟨adds.map (·.hash), by simp, rfl⟩, ih.1.hyg, hnd, hc, ih.2⟩
   | verify L ts ps remember _ hnd hc he ih =>
-    obtain ⟨m2, h2, s2, _⟩ := C09b.inv_verify cr ih.1 L ts ps [] hnd hc remember
+    obtain ⟨m2, h2, s2, _⟩ := C09b.inv_verify nz ih.1 L ts ps [] hnd hc remember
     rw [List.append_nil, he] at h2
     rw [(Prod.mk.inj h2).1]; exact ⟨s2, ih.2⟩
   | ingest L ts ps _ hnd hc he ih =>
-    obtain ⟨m2, h2, s2, _⟩ := C09b.inv_ingest cr ih.1 L ts ps [] hnd hc
+    obtain ⟨m2, h2, s2, _⟩ := C09b.inv_ingest nz ih.1 L ts ps [] hnd hc
     rw [List.append_nil, he] at h2
     rw [(Prod.mk.inj h2).1]; exact ⟨s2, ih.2⟩
   | prune L _ he ih =>
-    obtain ⟨m2, h2, s2, _⟩ := C09b.inv_prune cr ih.1 L
+    obtain ⟨m2, h2, s2, _⟩ := C09b.inv_prune nz ih.1 L
     rw [he] at h2
     rw [(Prod.mk.inj h2).1]; exact ⟨s2, ih.2⟩
   | undo b _ he ih =>
     obtain ⟨s, ⟨adds, hlen, hF⟩, hy, hnd, hc, hst⟩ := ih
     rw [hF] at s
-    obtain ⟨m2, h2, s2, _⟩ := C09b.inv_undo cr s hy hnd hc nonZero hnz
+    obtain ⟨m2, h2, s2, _⟩ := C09b.inv_undo nz s hy hnd hc nonZero hnz
     rw [hlen, he] at h2
     rw [(Prod.mk.inj h2).1]; exact ⟨s2, hst⟩
   | restore w m0 _ hw hfull ih => exact ⟨sinv_restore ih.1 hw hfull, ih.2⟩
@@ -245,7 +248,7 @@ specification's roots and is sane (so `Read` accepts its stream); and on such a 
 call succeeds — `Verify`, `Ingest`, `Prune`, `Modify` (targets in any order), `Undo` of the newest
 block (also right after a restore: the history is the caller's) — and it can be serialised and
 restored again. -/
-theorem C09_reach_ser (cr : CR H) (nonZero : H) (hnz : nonZero ≠ (zero : H)) :
+theorem C09_reach_ser (nz : NZ H) (nonZero : H) (hnz : nonZero ≠ (zero : H)) :
     (∀ (m : MapPollard H) (F : Forest H) (st : List (BD H)), ReachSer nonZero m F st →
       m.full = false ∧ SInv m F ∧ Inv m F ∧ m.roots = F.roots ∧ Sane m) ∧
     (∀ (m : MapPollard H) (F : Forest H) (st : List (BD H)), ReachSer nonZero m F st →
@@ -263,34 +266,34 @@ theorem C09_reach_ser (cr : CR H) (nonZero : H) (hnz : nonZero ≠ (zero : H)) :
           b.prev.roots m = (m', .ok ())) ∧
       (∀ w m0, Walk m w → m0.full = false → ReachSer nonZero (restore m0 w) F st)) := by
   refine ⟨fun m F st hr => ?_, fun m F st hr => ?_⟩
-  · have s := (ReachSer.stack cr hnz hr).1
-    exact ⟨s.full, s, s.inv cr, Props.C09.roots_eq (s.inv cr), inv_sane (s.inv cr)⟩
-  · obtain ⟨s, hst⟩ := ReachSer.stack cr hnz hr
+  · have s := (ReachSer.stack nz hnz hr).1
+    exact ⟨s.full, s, s.inv nz, Props.C09.roots_eq (s.inv nz), inv_sane (s.inv nz)⟩
+  · obtain ⟨s, hst⟩ := ReachSer.stack nz hnz hr
     refine ⟨?_, ?_, ?_, ?_, ?_⟩
     · intro L ts ps remember hnd hc
-      obtain ⟨m1, h1, _⟩ := C09b.inv_verify cr s L ts ps [] hnd hc remember
-      obtain ⟨m2, h2, _⟩ := C09b.inv_ingest cr s L ts ps [] hnd hc
+      obtain ⟨m1, h1, _⟩ := C09b.inv_verify nz s L ts ps [] hnd hc remember
+      obtain ⟨m2, h2, _⟩ := C09b.inv_ingest nz s L ts ps [] hnd hc
       rw [List.append_nil] at h1 h2
       exact ⟨⟨m1, h1⟩, ⟨m2, h2⟩⟩
     · intro L
-      obtain ⟨m1, h1, _⟩ := C09b.inv_prune cr s L
+      obtain ⟨m1, h1, _⟩ := C09b.inv_prune nz s L
       exact ⟨m1, h1⟩
     · intro adds dels ts ps tgts hca hnd hc hp hfr hndA hn
-      obtain ⟨m2, h2, _⟩ := inv_modify_any_order cr s adds dels ts ps hca hnd hc hp
+      obtain ⟨m2, h2, _⟩ := inv_modify_any_order nz s adds dels ts ps hca hnd hc hp
         (fun a ha => ⟨(hfr a ha).2.1, (hfr a ha).1, (hfr a ha).2.2⟩) hndA hn
       exact ⟨m2, h2⟩
     · intro b st' e
       subst e
       obtain ⟨⟨adds, hlen, hF⟩, hy, hnd, hc, _⟩ := hst
       rw [hF] at s
-      obtain ⟨m2, h2, _⟩ := C09b.inv_undo cr s hy hnd hc nonZero hnz
+      obtain ⟨m2, h2, _⟩ := C09b.inv_undo nz s hy hnd hc nonZero hnz
       rw [hlen] at h2
       exact ⟨m2, h2⟩
     · intro w m0 hw hfull
       exact .restore w m0 hr hw hfull
 
 /-- the look-ups (C10 / C01 / C02 for the map forest) in every `ReachSer` state -/
-theorem lookups_reach_ser (cr : CR H) {nonZero : H} (hnz : nonZero ≠ (zero : H)) {m : MapPollard H} {F : Forest H}
+theorem lookups_reach_ser (nz : NZ H) {nonZero : H} (hnz : nonZero ≠ (zero : H)) {m : MapPollard H} {F : Forest H}
     {st : List (BD H)} (hr : ReachSer nonZero m F st) :
     m.roots = F.roots ∧
     (∀ q, Valid F.rows q → m.getHash (encP F.rows q) = Hasher.zero ∨ F.nodeAt q = some (m.getHash (encP F.rows q))) ∧
@@ -298,7 +301,7 @@ theorem lookups_reach_ser (cr : CR H) {nonZero : H} (hnz : nonZero ≠ (zero : H
     (∀ x, m.getLeafPosition x = none ↔ m.hasCached x = false) ∧
     (∀ L, (∀ x ∈ L, m.hasCached x = true) → L.Nodup →
       ∃ tgts hashes, F.canon L = some (tgts, hashes) ∧ m.prove L = .ok (tgts.map (encP F.rows), hashes)) := by
-  obtain ⟨_, _, inv, hroots, _⟩ := (C09_reach_ser cr nonZero hnz).1 m F st hr
+  obtain ⟨_, _, inv, hroots, _⟩ := (C09_reach_ser nz nonZero hnz).1 m F st hr
   exact ⟨hroots, fun q hq => Props.C09.getHash_true inv q hq,
     fun x p h => Props.C09.getLeafPosition_some inv h,
     fun x => Props.C09.getLeafPosition_none x,
@@ -343,24 +346,24 @@ theorem ReachFullSer.of_reachFullU {nonZero : H} {m : MapPollard H} {F : Forest 
   | prune L _ he ih => exact .prune L ih he
   | undo b _ he ih => exact .undo b ih he
 
-theorem ReachFullSer.stack (cr : CR H) {nonZero : H} (hnz : nonZero ≠ (zero : H)) :
+theorem ReachFullSer.stack (nz : NZ H) {nonZero : H} (hnz : nonZero ≠ (zero : H)) :
     ∀ {m : MapPollard H} {F : Forest H} {st : List (BD H)}, ReachFullSer nonZero m F st →
       FInv m F ∧ C09b.StackOK F st := by
   intro m F st hr
   induction hr with
   | new => exact ⟨C09c.finv_new, trivial⟩
   | modify adds dels ts ps tgts _ hnd hc hp hfr hndA hn he ih =>
-    obtain ⟨m2, h2, s2, _⟩ := C09c.finv_modify_any_order cr ih.1 adds dels ts ps hnd hc
+    obtain ⟨m2, h2, s2, _⟩ := C09c.finv_modify_any_order nz ih.1 adds dels ts ps hnd hc
       (fun a ha => ⟨(hfr a ha).2.1, (hfr a ha).1, (hfr a ha).2.2⟩) hndA hn hp
     rw [he] at h2
     rw [(Prod.mk.inj h2).1]
     exact ⟨s2, ⟨adds.map (·.hash), by simp, rfl⟩, ih.1.hyg, hnd, hc, ih.2⟩
   | verify L ts ps remember _ hnd hc he ih =>
-    obtain ⟨m2, h2, s2, _⟩ := C09c.finv_verify cr ih.1 L ts ps [] hnd hc remember
+    obtain ⟨m2, h2, s2, _⟩ := C09c.finv_verify nz ih.1 L ts ps [] hnd hc remember
     rw [List.append_nil, he] at h2
     rw [(Prod.mk.inj h2).1]; exact ⟨s2, ih.2⟩
   | ingest L ts ps _ hnd hc he ih =>
-    obtain ⟨m2, h2, s2, _⟩ := C09c.finv_ingest cr ih.1 L ts ps [] hnd hc
+    obtain ⟨m2, h2, s2, _⟩ := C09c.finv_ingest nz ih.1 L ts ps [] hnd hc
     rw [List.append_nil, he] at h2
     rw [(Prod.mk.inj h2).1]; exact ⟨s2, ih.2⟩
   | prune L _ he ih =>
@@ -369,14 +372,14 @@ theorem ReachFullSer.stack (cr : CR H) {nonZero : H} (hnz : nonZero ≠ (zero : 
   | undo b _ he ih =>
     obtain ⟨s, ⟨adds, hlen, hF⟩, hy, hnd, hc, hst⟩ := ih
     rw [hF] at s
-    obtain ⟨m2, h2, s2, _⟩ := C09c.finv_undo cr s hy hnd hc nonZero hnz
+    obtain ⟨m2, h2, s2, _⟩ := C09c.finv_undo nz s hy hnd hc nonZero hnz
     rw [hlen, he] at h2
     rw [(Prod.mk.inj h2).1]; exact ⟨s2, hst⟩
   | restore w m0 _ hw hfull ih => exact ⟨finv_restore ih.1 hw hfull, ih.2⟩
 
 /-- **C09 for the FULL map forest, every operation AND `Write ; Read`** (`C09c.C09_reach_full`
 extended) -/
-theorem C09_reach_full_ser (cr : CR H) (nonZero : H) (hnz : nonZero ≠ (zero : H)) :
+theorem C09_reach_full_ser (nz : NZ H) (nonZero : H) (hnz : nonZero ≠ (zero : H)) :
     (∀ (m : MapPollard H) (F : Forest H) (st : List (BD H)), ReachFullSer nonZero m F st →
       m.full = true ∧ FInv m F ∧ Inv m F ∧ m.roots = F.roots ∧ Sane m) ∧
     (∀ (m : MapPollard H) (F : Forest H) (st : List (BD H)), ReachFullSer nonZero m F st →
@@ -394,45 +397,45 @@ theorem C09_reach_full_ser (cr : CR H) (nonZero : H) (hnz : nonZero ≠ (zero : 
           b.prev.roots m = (m', .ok ())) ∧
       (∀ w m0, Walk m w → m0.full = true → ReachFullSer nonZero (restore m0 w) F st)) := by
   refine ⟨fun m F st hr => ?_, fun m F st hr => ?_⟩
-  · have s := (ReachFullSer.stack cr hnz hr).1
-    exact ⟨s.full, s, s.inv cr, C09c.roots_full cr s, finv_sane s⟩
-  · obtain ⟨s, hst⟩ := ReachFullSer.stack cr hnz hr
+  · have s := (ReachFullSer.stack nz hnz hr).1
+    exact ⟨s.full, s, s.inv nz, C09c.roots_full nz s, finv_sane s⟩
+  · obtain ⟨s, hst⟩ := ReachFullSer.stack nz hnz hr
     refine ⟨?_, ?_, ?_, ?_, ?_⟩
     · intro L ts ps remember hnd hc
-      obtain ⟨m1, h1, _⟩ := C09c.finv_verify cr s L ts ps [] hnd hc remember
-      obtain ⟨m2, h2, _⟩ := C09c.finv_ingest cr s L ts ps [] hnd hc
+      obtain ⟨m1, h1, _⟩ := C09c.finv_verify nz s L ts ps [] hnd hc remember
+      obtain ⟨m2, h2, _⟩ := C09c.finv_ingest nz s L ts ps [] hnd hc
       rw [List.append_nil] at h1 h2
       exact ⟨⟨m1, h1⟩, ⟨m2, h2⟩⟩
     · intro L
       exact ⟨m, C09c.finv_prune s L⟩
     · intro adds dels hnd hlive hfr hndA hn
-      obtain ⟨ts, ps, hc, _⟩ := C09c.prove_full cr s dels hlive hnd
+      obtain ⟨ts, ps, hc, _⟩ := C09c.prove_full nz s dels hlive hnd
       refine ⟨ts, ps, hc, ?_⟩
       intro tgts hp
-      obtain ⟨m2, h2, _⟩ := C09c.finv_modify_any_order cr s adds dels ts ps hnd hc
+      obtain ⟨m2, h2, _⟩ := C09c.finv_modify_any_order nz s adds dels ts ps hnd hc
         (fun a ha => ⟨(hfr a ha).2.1, (hfr a ha).1, (hfr a ha).2.2⟩) hndA hn hp
       exact ⟨m2, h2⟩
     · intro b st' e
       subst e
       obtain ⟨⟨adds, hlen, hF⟩, hy, hnd, hc, _⟩ := hst
       rw [hF] at s
-      obtain ⟨m2, h2, _⟩ := C09c.finv_undo cr s hy hnd hc nonZero hnz
+      obtain ⟨m2, h2, _⟩ := C09c.finv_undo nz s hy hnd hc nonZero hnz
       rw [hlen] at h2
       exact ⟨m2, h2⟩
     · intro w m0 hw hfull
       exact .restore w m0 hr hw hfull
 
 /-- the look-ups of a full map forest in every `ReachFullSer` state: exact functions of `F` -/
-theorem lookups_reach_full_ser (cr : CR H) {nonZero : H} (hnz : nonZero ≠ (zero : H)) {m : MapPollard H}
+theorem lookups_reach_full_ser (nz : NZ H) {nonZero : H} (hnz : nonZero ≠ (zero : H)) {m : MapPollard H}
     {F : Forest H} {st : List (BD H)} (hr : ReachFullSer nonZero m F st) :
     m.roots = F.roots ∧
     (∀ q, Valid F.rows q → m.getHash (encP F.rows q) = (F.nodeAt q).getD zero) ∧
     (∀ x, m.getLeafPosition x = (F.posOf x).map (encP F.rows)) ∧
     (∀ L, (∀ x ∈ L, x ∈ F.liveLeaves) → L.Nodup →
       ∃ tgts hashes, F.canon L = some (tgts, hashes) ∧ m.prove L = .ok (tgts.map (encP F.rows), hashes)) := by
-  have s := (ReachFullSer.stack cr hnz hr).1
-  exact ⟨C09c.roots_full cr s, fun q hq => C09c.getHash_full cr s q hq, fun x => C09c.getLeafPosition_full cr s x,
-    fun L hL hnd => C09c.prove_full cr s L hL hnd⟩
+  have s := (ReachFullSer.stack nz hnz hr).1
+  exact ⟨C09c.roots_full nz s, fun q hq => C09c.getHash_full nz s q hq, fun x => C09c.getLeafPosition_full nz s x,
+    fun L hL hnd => C09c.prove_full nz s L hL hnd⟩
 
 end Closure
 
@@ -475,7 +478,7 @@ theorem getHash_required {m : MapPollard H} {F : Forest H} (inv : Inv m F) {q : 
 EVERY hash, `Prove` of every duplicate-free request (the canonical proof, or the same refusal),
 `GetHash` at every required position (the true hash; elsewhere each answers the true hash or the
 all-zero "not stored"), `NumLeaves`.  All of these are functions of `F` and of the cached set. -/
-theorem twin_queries (cr : CR H) {m m' : MapPollard H} {F : Forest H} (t : Twin m m' F) :
+theorem twin_queries (nz : NZ H) {m m' : MapPollard H} {F : Forest H} (t : Twin m m' F) :
     (m.roots = F.roots ∧ m'.roots = F.roots) ∧
     (∀ x, m.getLeafPosition x = m'.getLeafPosition x) ∧
     (∀ L, L.Nodup → m.prove L = m'.prove L) ∧
@@ -485,8 +488,8 @@ theorem twin_queries (cr : CR H) {m m' : MapPollard H} {F : Forest H} (t : Twin 
       (m.getHash (encP F.rows q) = zero ∨ F.nodeAt q = some (m.getHash (encP F.rows q))) ∧
       (m'.getHash (encP F.rows q) = zero ∨ F.nodeAt q = some (m'.getHash (encP F.rows q)))) ∧
     m.numLeaves = m'.numLeaves := by
-  have inv := t.left.inv cr
-  have inv' := t.right.inv cr
+  have inv := t.left.inv nz
+  have inv' := t.right.inv nz
   refine ⟨⟨Props.C09.roots_eq inv, Props.C09.roots_eq inv'⟩, ?_, ?_, ?_, ?_, ?_⟩
   · intro x
     cases h : m.getLeafPosition x with
@@ -577,7 +580,7 @@ def Op.after (F : Forest H) (st : List (BD H)) : Op H → Forest H × List (BD H
 /-- **one honest call on twins**: it succeeds on BOTH, and the two results are twins again — for
 the SAME new forest.  (`Modify`, `Verify`, `Ingest`, `Prune`, `Undo`; the honesty of the call is
 judged on the first instance — its cache is the second one's.) -/
-theorem twin_step (cr : CR H) {nonZero : H} (hnz : nonZero ≠ (zero : H)) {m m' : MapPollard H} {F : Forest H}
+theorem twin_step (nz : NZ H) {nonZero : H} (hnz : nonZero ≠ (zero : H)) {m m' : MapPollard H} {F : Forest H}
     {st : List (BD H)} (t : Twin m m' F) (hst : C09b.StackOK F st) (op : Op H) (ho : op.Honest m F st) :
     ∃ m1 m1', op.run nonZero F st m = (m1, .ok ()) ∧ op.run nonZero F st m' = (m1', .ok ()) ∧
       Twin m1 m1' (op.after F st).1 ∧ C09b.StackOK (op.after F st).1 (op.after F st).2 := by
@@ -587,26 +590,26 @@ theorem twin_step (cr : CR H) {nonZero : H} (hnz : nonZero ≠ (zero : H)) {m m'
     obtain ⟨hca, hnd, hcn, hp, hfr, hndA, hn⟩ := ho
     have hfr' := fun a ha => (⟨(hfr a ha).2.1, (hfr a ha).1, (hfr a ha).2.2⟩ :
       a.hash ∉ F.liveLeaves ∧ a.hash ≠ zero ∧ ∀ u v : H, a.hash ≠ ph u v)
-    obtain ⟨m1, h1, s1, _, _, c1⟩ := inv_modify_any_order cr s adds dels ts ps hca hnd hcn hp hfr' hndA hn
-    obtain ⟨m1', h1', s1', _, _, c1'⟩ := inv_modify_any_order cr s' adds dels ts ps
+    obtain ⟨m1, h1, s1, _, _, c1⟩ := inv_modify_any_order nz s adds dels ts ps hca hnd hcn hp hfr' hndA hn
+    obtain ⟨m1', h1', s1', _, _, c1'⟩ := inv_modify_any_order nz s' adds dels ts ps
       (fun x hx => (hc x).1 (hca x hx)) hnd hcn hp hfr' hndA hn
     refine ⟨m1, m1', h1, h1', ⟨s1, s1', fun y => ?_⟩, ⟨adds.map (·.hash), by simp, rfl⟩, s.hyg, hnd, hcn, hst⟩
     rw [c1, c1', hc]
   | verify L ts ps remember =>
     obtain ⟨hnd, hcn⟩ := ho
-    obtain ⟨m1, h1, s1, _, c1⟩ := C09b.inv_verify cr s L ts ps [] hnd hcn remember
-    obtain ⟨m1', h1', s1', _, c1'⟩ := C09b.inv_verify cr s' L ts ps [] hnd hcn remember
+    obtain ⟨m1, h1, s1, _, c1⟩ := C09b.inv_verify nz s L ts ps [] hnd hcn remember
+    obtain ⟨m1', h1', s1', _, c1'⟩ := C09b.inv_verify nz s' L ts ps [] hnd hcn remember
     rw [List.append_nil] at h1 h1'
     exact ⟨m1, m1', h1, h1', ⟨s1, s1', fun y => by rw [c1, c1', hc]⟩, hst⟩
   | ingest L ts ps =>
     obtain ⟨hnd, hcn⟩ := ho
-    obtain ⟨m1, h1, s1, _, c1⟩ := C09b.inv_ingest cr s L ts ps [] hnd hcn
-    obtain ⟨m1', h1', s1', _, c1'⟩ := C09b.inv_ingest cr s' L ts ps [] hnd hcn
+    obtain ⟨m1, h1, s1, _, c1⟩ := C09b.inv_ingest nz s L ts ps [] hnd hcn
+    obtain ⟨m1', h1', s1', _, c1'⟩ := C09b.inv_ingest nz s' L ts ps [] hnd hcn
     rw [List.append_nil] at h1 h1'
     exact ⟨m1, m1', h1, h1', ⟨s1, s1', fun y => by rw [c1, c1', hc]⟩, hst⟩
   | prune L =>
-    obtain ⟨m1, h1, s1, _, c1⟩ := C09b.inv_prune cr s L
-    obtain ⟨m1', h1', s1', _, c1'⟩ := C09b.inv_prune cr s' L
+    obtain ⟨m1, h1, s1, _, c1⟩ := C09b.inv_prune nz s L
+    obtain ⟨m1', h1', s1', _, c1'⟩ := C09b.inv_prune nz s' L
     exact ⟨m1, m1', h1, h1', ⟨s1, s1', fun y => by rw [c1, c1', hc]⟩, hst⟩
   | undo =>
     cases st with
@@ -614,8 +617,8 @@ theorem twin_step (cr : CR H) {nonZero : H} (hnz : nonZero ≠ (zero : H)) {m m'
     | cons b st' =>
       obtain ⟨⟨adds, hlen, hF⟩, hy, hnd, hcn, hst'⟩ := hst
       subst hF
-      obtain ⟨m1, h1, s1, _, _, c1⟩ := C09b.inv_undo cr s hy hnd hcn nonZero hnz
-      obtain ⟨m1', h1', s1', _, _, c1'⟩ := C09b.inv_undo cr s' hy hnd hcn nonZero hnz
+      obtain ⟨m1, h1, s1, _, _, c1⟩ := C09b.inv_undo nz s hy hnd hcn nonZero hnz
+      obtain ⟨m1', h1', s1', _, _, c1'⟩ := C09b.inv_undo nz s' hy hnd hcn nonZero hnz
       rw [hlen] at h1 h1'
       exact ⟨m1, m1', h1, h1', ⟨s1, s1', fun y => by rw [c1, c1', hc]⟩, hst'⟩
 
@@ -641,7 +644,7 @@ def HonestRun (nonZero : H) : List (Op H) → Forest H → List (BD H) → MapPo
 
 /-- **every honest run, of any length, on twins**: it succeeds on both, call by call, and ends in
 twins for the same final forest -/
-theorem lockstep (cr : CR H) {nonZero : H} (hnz : nonZero ≠ (zero : H)) (ops : List (Op H)) :
+theorem lockstep (nz : NZ H) {nonZero : H} (hnz : nonZero ≠ (zero : H)) (ops : List (Op H)) :
     ∀ {m m' : MapPollard H} {F : Forest H} {st : List (BD H)}, Twin m m' F → C09b.StackOK F st →
       HonestRun nonZero ops F st m →
       ∃ mk mk', runOps nonZero ops F st m = some mk ∧ runOps nonZero ops F st m' = some mk' ∧
@@ -651,7 +654,7 @@ theorem lockstep (cr : CR H) {nonZero : H} (hnz : nonZero ≠ (zero : H)) (ops :
   | cons op ops ih =>
     intro m m' F st t hst hr
     obtain ⟨ho, hrest⟩ := hr
-    obtain ⟨m1, m1', h1, h1', t1, hst1⟩ := twin_step cr hnz t hst op ho
+    obtain ⟨m1, m1', h1, h1', t1, hst1⟩ := twin_step nz hnz t hst op ho
     obtain ⟨mk, mk', hk, hk', tk, hstk⟩ := ih t1 hst1 (hrest m1 h1)
     refine ⟨mk, mk', ?_, ?_, tk, hstk⟩
     · simp only [runOps, h1]; exact hk
@@ -666,7 +669,7 @@ restored into a fresh partial receiver.  Then
       of the blocks applied before the restore, then of later ones) succeeds on both, call by call,
       and the two final states are twins for the same final forest — so (2) holds again after every
       call. -/
-theorem map_restored_behaves_identically (cr : CR H) (nonZero : H) (hnz : nonZero ≠ (zero : H))
+theorem map_restored_behaves_identically (nz : NZ H) (nonZero : H) (hnz : nonZero ≠ (zero : H))
     {m : MapPollard H} {F : Forest H} {st : List (BD H)} (hr : ReachSer nonZero m F st)
     (w : MapSt H) (hw : Walk m w) (m0 : MapPollard H) (hfull : m0.full = false) :
     let m' := restore m0 w
@@ -678,12 +681,12 @@ theorem map_restored_behaves_identically (cr : CR H) (nonZero : H) (hnz : nonZer
         (∀ x, mk.getLeafPosition x = mk'.getLeafPosition x) ∧
         (∀ L, L.Nodup → mk.prove L = mk'.prove L)) := by
   intro m'
-  obtain ⟨s, hst⟩ := ReachSer.stack cr hnz hr
+  obtain ⟨s, hst⟩ := ReachSer.stack nz hnz hr
   have t := twin_restore s hw hfull
   refine ⟨.restore w m0 hr hw hfull, t, ?_⟩
   intro ops hrun
-  obtain ⟨mk, mk', hk, hk', tk, _⟩ := lockstep cr hnz ops t hst hrun
-  obtain ⟨q1, q2, q3, _⟩ := twin_queries cr tk
+  obtain ⟨mk, mk', hk, hk', tk, _⟩ := lockstep nz hnz ops t hst hrun
+  obtain ⟨q1, q2, q3, _⟩ := twin_queries nz tk
   exact ⟨mk, mk', hk, hk', tk, q1, q2, q3⟩
 
 /-! #### full forests -/
@@ -699,21 +702,21 @@ theorem twinF_restore {m m0 : MapPollard H} {F : Forest H} {st : MapSt H} (s : F
 
 /-- **full twins answer EVERY query identically**: roots, `GetHash` at every position,
 `GetLeafPosition` of every hash, `Prove` of every duplicate-free request -/
-theorem twinF_queries (cr : CR H) {m m' : MapPollard H} {F : Forest H} (t : TwinF m m' F) :
+theorem twinF_queries (nz : NZ H) {m m' : MapPollard H} {F : Forest H} (t : TwinF m m' F) :
     m.roots = m'.roots ∧
     (∀ q, Valid F.rows q → m.getHash (encP F.rows q) = m'.getHash (encP F.rows q)) ∧
     (∀ x, m.getLeafPosition x = m'.getLeafPosition x) ∧
     (∀ L, L.Nodup → m.prove L = m'.prove L) ∧
     m.numLeaves = m'.numLeaves := by
   obtain ⟨s, s'⟩ := t
-  refine ⟨by rw [C09c.roots_full cr s, C09c.roots_full cr s'],
-    fun q hq => by rw [C09c.getHash_full cr s q hq, C09c.getHash_full cr s' q hq],
-    fun x => by rw [C09c.getLeafPosition_full cr s, C09c.getLeafPosition_full cr s'], ?_,
+  refine ⟨by rw [C09c.roots_full nz s, C09c.roots_full nz s'],
+    fun q hq => by rw [C09c.getHash_full nz s q hq, C09c.getHash_full nz s' q hq],
+    fun x => by rw [C09c.getLeafPosition_full nz s, C09c.getLeafPosition_full nz s'], ?_,
     by rw [s.n_eq, s'.n_eq]⟩
   intro L hnd
   by_cases hall : ∀ x ∈ L, x ∈ F.liveLeaves
-  · obtain ⟨tg, hs, hc, hp⟩ := C09c.prove_full cr s L hall hnd
-    obtain ⟨tg', hs', hc', hp'⟩ := C09c.prove_full cr s' L hall hnd
+  · obtain ⟨tg, hs, hc, hp⟩ := C09c.prove_full nz s L hall hnd
+    obtain ⟨tg', hs', hc', hp'⟩ := C09c.prove_full nz s' L hall hnd
     rw [hc] at hc'; cases hc'
     rw [hp, hp']
   · have : ∃ x, x ∈ L ∧ x ∉ F.liveLeaves := by
@@ -725,11 +728,11 @@ theorem twinF_queries (cr : CR H) {m m' : MapPollard H} {F : Forest H} (t : Twin
       intro hx'
       exact hne ⟨x, hx, hx'⟩
     obtain ⟨x, hx, hdead⟩ := this
-    rw [C09c.prove_full_dead cr s L hx hdead, C09c.prove_full_dead cr s' L hx hdead]
+    rw [C09c.prove_full_dead nz s L hx hdead, C09c.prove_full_dead nz s' L hx hdead]
 
 /-- one honest call on full twins (the cached-premise of `Op.Honest` is not needed: every live leaf
 of a full forest is cached) -/
-theorem twinF_step (cr : CR H) {nonZero : H} (hnz : nonZero ≠ (zero : H)) {m m' : MapPollard H} {F : Forest H}
+theorem twinF_step (nz : NZ H) {nonZero : H} (hnz : nonZero ≠ (zero : H)) {m m' : MapPollard H} {F : Forest H}
     {st : List (BD H)} (t : TwinF m m' F) (hst : C09b.StackOK F st) (op : Op H) (ho : op.Honest m F st) :
     ∃ m1 m1', op.run nonZero F st m = (m1, .ok ()) ∧ op.run nonZero F st m' = (m1', .ok ()) ∧
       TwinF m1 m1' (op.after F st).1 ∧ C09b.StackOK (op.after F st).1 (op.after F st).2 := by
@@ -739,19 +742,19 @@ theorem twinF_step (cr : CR H) {nonZero : H} (hnz : nonZero ≠ (zero : H)) {m m
     obtain ⟨_, hnd, hcn, hp, hfr, hndA, hn⟩ := ho
     have hfr' := fun a ha => (⟨(hfr a ha).2.1, (hfr a ha).1, (hfr a ha).2.2⟩ :
       a.hash ∉ F.liveLeaves ∧ a.hash ≠ zero ∧ ∀ u v : H, a.hash ≠ ph u v)
-    obtain ⟨m1, h1, s1, _⟩ := C09c.finv_modify_any_order cr s adds dels ts ps hnd hcn hfr' hndA hn hp
-    obtain ⟨m1', h1', s1', _⟩ := C09c.finv_modify_any_order cr s' adds dels ts ps hnd hcn hfr' hndA hn hp
+    obtain ⟨m1, h1, s1, _⟩ := C09c.finv_modify_any_order nz s adds dels ts ps hnd hcn hfr' hndA hn hp
+    obtain ⟨m1', h1', s1', _⟩ := C09c.finv_modify_any_order nz s' adds dels ts ps hnd hcn hfr' hndA hn hp
     exact ⟨m1, m1', h1, h1', ⟨s1, s1'⟩, ⟨adds.map (·.hash), by simp, rfl⟩, s.hyg, hnd, hcn, hst⟩
   | verify L ts ps remember =>
     obtain ⟨hnd, hcn⟩ := ho
-    obtain ⟨m1, h1, s1, _⟩ := C09c.finv_verify cr s L ts ps [] hnd hcn remember
-    obtain ⟨m1', h1', s1', _⟩ := C09c.finv_verify cr s' L ts ps [] hnd hcn remember
+    obtain ⟨m1, h1, s1, _⟩ := C09c.finv_verify nz s L ts ps [] hnd hcn remember
+    obtain ⟨m1', h1', s1', _⟩ := C09c.finv_verify nz s' L ts ps [] hnd hcn remember
     rw [List.append_nil] at h1 h1'
     exact ⟨m1, m1', h1, h1', ⟨s1, s1'⟩, hst⟩
   | ingest L ts ps =>
     obtain ⟨hnd, hcn⟩ := ho
-    obtain ⟨m1, h1, s1, _⟩ := C09c.finv_ingest cr s L ts ps [] hnd hcn
-    obtain ⟨m1', h1', s1', _⟩ := C09c.finv_ingest cr s' L ts ps [] hnd hcn
+    obtain ⟨m1, h1, s1, _⟩ := C09c.finv_ingest nz s L ts ps [] hnd hcn
+    obtain ⟨m1', h1', s1', _⟩ := C09c.finv_ingest nz s' L ts ps [] hnd hcn
     rw [List.append_nil] at h1 h1'
     exact ⟨m1, m1', h1, h1', ⟨s1, s1'⟩, hst⟩
   | prune L => exact ⟨m, m', C09c.finv_prune s L, C09c.finv_prune s' L, ⟨s, s'⟩, hst⟩
@@ -761,12 +764,12 @@ theorem twinF_step (cr : CR H) {nonZero : H} (hnz : nonZero ≠ (zero : H)) {m m
     | cons b st' =>
       obtain ⟨⟨adds, hlen, hF⟩, hy, hnd, hcn, hst'⟩ := hst
       subst hF
-      obtain ⟨m1, h1, s1, _⟩ := C09c.finv_undo cr s hy hnd hcn nonZero hnz
-      obtain ⟨m1', h1', s1', _⟩ := C09c.finv_undo cr s' hy hnd hcn nonZero hnz
+      obtain ⟨m1, h1, s1, _⟩ := C09c.finv_undo nz s hy hnd hcn nonZero hnz
+      obtain ⟨m1', h1', s1', _⟩ := C09c.finv_undo nz s' hy hnd hcn nonZero hnz
       rw [hlen] at h1 h1'
       exact ⟨m1, m1', h1, h1', ⟨s1, s1'⟩, hst'⟩
 
-theorem lockstepF (cr : CR H) {nonZero : H} (hnz : nonZero ≠ (zero : H)) (ops : List (Op H)) :
+theorem lockstepF (nz : NZ H) {nonZero : H} (hnz : nonZero ≠ (zero : H)) (ops : List (Op H)) :
     ∀ {m m' : MapPollard H} {F : Forest H} {st : List (BD H)}, TwinF m m' F → C09b.StackOK F st →
       HonestRun nonZero ops F st m →
       ∃ mk mk', runOps nonZero ops F st m = some mk ∧ runOps nonZero ops F st m' = some mk' ∧
@@ -776,7 +779,7 @@ theorem lockstepF (cr : CR H) {nonZero : H} (hnz : nonZero ≠ (zero : H)) (ops 
   | cons op ops ih =>
     intro m m' F st t hst hr
     obtain ⟨ho, hrest⟩ := hr
-    obtain ⟨m1, m1', h1, h1', t1, hst1⟩ := twinF_step cr hnz t hst op ho
+    obtain ⟨m1, m1', h1, h1', t1, hst1⟩ := twinF_step nz hnz t hst op ho
     obtain ⟨mk, mk', hk, hk', tk, hstk⟩ := ih t1 hst1 (hrest m1 h1)
     refine ⟨mk, mk', ?_, ?_, tk, hstk⟩
     · simp only [runOps, h1]; exact hk
@@ -785,7 +788,7 @@ theorem lockstepF (cr : CR H) {nonZero : H} (hnz : nonZero ≠ (zero : H)) (ops 
 /-- **C13 for the FULL map forest, behavioural form**: the restored copy (receiver with
 `Full = true`) of a reachable full instance is reachable for the same forest and history; every
 honest run succeeds on both, and after it ALL queries agree (they are the specification's). -/
-theorem map_restored_behaves_identically_full (cr : CR H) (nonZero : H) (hnz : nonZero ≠ (zero : H))
+theorem map_restored_behaves_identically_full (nz : NZ H) (nonZero : H) (hnz : nonZero ≠ (zero : H))
     {m : MapPollard H} {F : Forest H} {st : List (BD H)} (hr : ReachFullSer nonZero m F st)
     (w : MapSt H) (hw : Walk m w) (m0 : MapPollard H) (hfull : m0.full = true) :
     let m' := restore m0 w
@@ -799,12 +802,12 @@ theorem map_restored_behaves_identically_full (cr : CR H) (nonZero : H) (hnz : n
         (∀ x, mk.getLeafPosition x = mk'.getLeafPosition x) ∧
         (∀ L, L.Nodup → mk.prove L = mk'.prove L)) := by
   intro m'
-  obtain ⟨s, hst⟩ := ReachFullSer.stack cr hnz hr
+  obtain ⟨s, hst⟩ := ReachFullSer.stack nz hnz hr
   have t := twinF_restore s hw hfull
   refine ⟨.restore w m0 hr hw hfull, t, ?_⟩
   intro ops hrun
-  obtain ⟨mk, mk', hk, hk', tk, _⟩ := lockstepF cr hnz ops t hst hrun
-  obtain ⟨q1, q2, q3, q4, _⟩ := twinF_queries cr tk
+  obtain ⟨mk, mk', hk, hk', tk, _⟩ := lockstepF nz hnz ops t hst hrun
+  obtain ⟨q1, q2, q3, q4, _⟩ := twinF_queries nz tk
   exact ⟨mk, mk', hk, hk', tk, q1, q2, q3, q4⟩
 
 end Behaviour
@@ -938,8 +941,8 @@ example : mB'.nodes ≠ mB.nodes ∧ mB'.cached ≠ mB.cached := by decide +kern
 /-- … but it is reachable, satisfies the invariant for the same forest and has the same roots -/
 example : ReachSer nz mB' FB [bdB, bdA] ∧ Inv mB' FB ∧ mB'.roots = mB.roots := by
   have r := ReachSer.restore wB (MapPollard.new false) reachB walkB rfl
-  obtain ⟨_, _, inv, h, _⟩ := (C09_reach_ser crT nz (leafT_nz 9)).1 _ _ _ r
-  obtain ⟨_, _, _, h0, _⟩ := (C09_reach_ser crT nz (leafT_nz 9)).1 _ _ _ reachB
+  obtain ⟨_, _, inv, h, _⟩ := (C09_reach_ser crT.toNZ nz (leafT_nz 9)).1 _ _ _ r
+  obtain ⟨_, _, _, h0, _⟩ := (C09_reach_ser crT.toNZ nz (leafT_nz 9)).1 _ _ _ reachB
   exact ⟨r, inv, by rw [h0]; exact h⟩
 
 /-- one more block on both — it deletes the cached leaf 0 and adds leaf 5, which is lifted over the
@@ -961,7 +964,7 @@ answer alike -/
 example : ∃ mk mk', runOps nz ops FB [bdB, bdA] mB = some mk ∧ runOps nz ops FB [bdB, bdA] mB' = some mk' ∧
     Twin mk mk' FB ∧ mk.roots = FB.roots ∧ mk'.roots = FB.roots ∧
     (∀ x, mk.getLeafPosition x = mk'.getLeafPosition x) := by
-  obtain ⟨_, _, h⟩ := map_restored_behaves_identically crT nz (leafT_nz 9) reachB wB walkB (MapPollard.new false) rfl
+  obtain ⟨_, _, h⟩ := map_restored_behaves_identically crT.toNZ nz (leafT_nz 9) reachB wB walkB (MapPollard.new false) rfl
   obtain ⟨mk, mk', h1, h2, t, hroots, hpos, _⟩ := h ops ops_honest
   exact ⟨mk, mk', h1, h2, t, hroots.1, hroots.2, hpos⟩
 
@@ -979,7 +982,7 @@ theorem walkF : Walk mF wF := walk_rev mF
 example : ∃ mk mk', runOps nz [Op.undo] FA [bdA] mF = some mk ∧
     runOps nz [Op.undo] FA [bdA] (restore (MapPollard.new true) wF) = some mk' ∧
     TwinF mk mk' Forest.empty ∧ mk.roots = mk'.roots := by
-  obtain ⟨_, _, h⟩ := map_restored_behaves_identically_full crT nz (leafT_nz 9) reachF wF walkF
+  obtain ⟨_, _, h⟩ := map_restored_behaves_identically_full crT.toNZ nz (leafT_nz 9) reachF wF walkF
     (MapPollard.new true) rfl
   obtain ⟨mk, mk', h1, h2, t, hr, _⟩ := h [Op.undo] ⟨by simp [Op.Honest], fun _ _ => trivial⟩
   exact ⟨mk, mk', h1, h2, t, hr⟩
